@@ -408,6 +408,10 @@ func verifyContract(prog *Program, prop string, fn *ssa.Function, c *FuncContrac
 			if occ >= 1 && occ <= len(matches) {
 				found = matches[occ-1]
 			}
+			if found == 0 && c.LoopOptional[neg] {
+				delete(c.Loops, neg) // `loop?`: the clauses only apply when the loop exists
+				continue
+			}
 			if found == 0 {
 				errs = append(errs, "unsupported: no loop of "+fn.Name()+" starts with \""+anchor+"\"")
 				delete(c.Loops, neg)
